@@ -1295,6 +1295,219 @@ Proof.
         rewrite Hn. apply (get_nad_u_ok k it tr' Hwm Ht'). }
 Qed.
 
+
+(* ---- Examples sections *)
+Lemma ex_loop_cons : forall trim in_ex in_block ct ce l r,
+  ex_loop trim in_ex in_block ct ce (l :: r) =
+  if is_empty_line l then
+    if in_ex then (if nonempty_list ce then [(true, join_nl ce)] else []) ++ ex_loop trim false in_block ct [] r
+    else ex_loop trim false in_block (ct ++ [l]) ce r
+  else if in_ex then
+    let l' := if trim then trim_blankline (trim_flags l) else l in
+    ex_loop trim true in_block ct (ce ++ [l']) r
+  else if startswith s_fence l then ex_loop trim false (negb in_block) (ct ++ [l]) ce r
+  else if in_block then ex_loop trim false in_block (ct ++ [l]) ce r
+  else if startswith s_prompt l then
+    (if nonempty_list ct then [(false, rstrip_nl (join_nl ct))] else [])
+      ++ ex_loop trim true in_block [] (ce ++ [if trim then trim_flags l else l]) r
+  else ex_loop trim false in_block (ct ++ [l]) ce r.
+Proof. reflexivity. Qed.
+
+Definition prose_line_ok (l : str) : Prop :=
+  is_empty_line l = false /\ startswith s_fence l = false /\ startswith s_prompt l = false.
+
+Lemma ex_prose : forall trim ls R ct, Forall prose_line_ok ls ->
+  ex_loop trim false false ct [] (ls ++ R) = ex_loop trim false false (ct ++ ls) [] R.
+Proof.
+  intros trim ls. induction ls as [|l ls IH]; intros R ct H.
+  - simpl. rewrite app_nil_r. reflexivity.
+  - inversion H as [|? ? [He [Hf Hp]] Hls]; subst. rewrite <- app_comm_cons. rewrite ex_loop_cons.
+    rewrite He, Hf, Hp. rewrite (IH R (ct ++ [l]) Hls). rewrite <- app_assoc. reflexivity.
+Qed.
+
+Definition trim_more (trim : bool) (l : str) : str := if trim then trim_blankline (trim_flags l) else l.
+
+Lemma ex_console : forall trim cs R ce, Forall (fun l => is_empty_line l = false) cs ->
+  ex_loop trim true false [] ce (cs ++ R) = ex_loop trim true false [] (ce ++ map (trim_more trim) cs) R.
+Proof.
+  intros trim cs. induction cs as [|l cs IH]; intros R ce H.
+  - simpl. rewrite app_nil_r. reflexivity.
+  - inversion H as [|? ? He Hcs]; subst. rewrite <- app_comm_cons. rewrite ex_loop_cons. rewrite He.
+    cbv zeta. rewrite (IH R _ Hcs). rewrite <- app_assoc. reflexivity.
+Qed.
+
+Lemma wf_chunk_lines : forall b ls, wf_chunk (b, ls) = true ->
+  ls <> [] /\ (forall l, In l ls -> forallb printable l = true /\ is_empty_line l = false).
+Proof.
+  intros b ls H. unfold wf_chunk in H. apply andb_true_iff in H. destruct H as [Hl H]. split.
+  - destruct ls; [discriminate|discriminate].
+  - intros l Hin. rewrite forallb_forall in Hl. specialize (Hl l Hin). unfold wf_ex_line in Hl.
+    apply andb_true_iff in Hl. destruct Hl as [A B]. apply negb_true_iff in B. auto.
+Qed.
+
+Lemma wf_chunk_prose : forall ls, wf_chunk (false, ls) = true -> Forall prose_line_ok ls.
+Proof.
+  intros ls H. destruct (wf_chunk_lines false ls H) as [_ Hl]. unfold wf_chunk in H. apply andb_true_iff in H. destruct H as [_ H].
+  destruct ls as [|l0 r]; [discriminate|]. apply Forall_forall. intros l Hin.
+  rewrite forallb_forall in H. specialize (H l Hin). apply andb_true_iff in H. destruct H as [A B].
+  apply negb_true_iff in A, B. destruct (Hl l Hin) as [_ He]. repeat split; auto.
+Qed.
+
+Lemma nonblank_last : forall ls, ls <> [] -> (forall l, In l ls -> forallb printable l = true /\ is_empty_line l = false) ->
+  last ls [] <> [].
+Proof.
+  intros ls Hn H. destruct (H (last ls []) (last_in ls [] Hn)) as [_ He]. destruct (last ls []); [discriminate|discriminate].
+Qed.
+
+Lemma ex_chunks : forall trim chunks, forallb wf_chunk chunks = true -> no_adjacent_prose chunks = true ->
+  ex_loop trim false false [] [] (flatten_chunks chunks) = map (expect_chunk trim) chunks.
+Proof.
+  intros trim chunks. induction chunks as [|[b ls] rest IH]; intros Hw Hadj; [reflexivity|].
+  simpl in Hw. apply andb_true_iff in Hw. destruct Hw as [Hc Hrest].
+  destruct (wf_chunk_lines b ls Hc) as [Hne Hl].
+  assert (HP : forall l, In l ls -> forallb printable l = true) by (intros l Hin; apply (Hl l Hin)).
+  assert (Hlast : last ls [] <> []) by (apply nonblank_last; auto).
+  assert (Hadj' : no_adjacent_prose rest = true).
+  { destruct rest as [|[b2 ls2] rest']; [reflexivity|]. simpl in Hadj. apply andb_true_iff in Hadj. destruct Hadj as [_ H]. exact H. }
+  destruct b.
+  - (* a console session *)
+    destruct ls as [|c0 cs]; [congruence|].
+    assert (Hp0 : startswith s_prompt c0 = true).
+    { unfold wf_chunk in Hc. apply andb_true_iff in Hc. destruct Hc as [_ H]. exact H. }
+    assert (He0 : is_empty_line c0 = false) by (apply (Hl c0); left; reflexivity).
+    assert (Hf0 : startswith s_fence c0 = false).
+    { destruct c0 as [|x c0']; [discriminate|]. simpl in Hp0. apply andb_true_iff in Hp0. destruct Hp0 as [Hx _].
+      apply ceq_eq in Hx. subst x. reflexivity. }
+    assert (Hcs : Forall (fun l => is_empty_line l = false) cs).
+    { apply Forall_forall. intros l Hin. apply (Hl l). right. exact Hin. }
+    assert (Hexp : expect_chunk trim (true, c0 :: cs) =
+                   (true, join_nl ((if trim then trim_flags c0 else c0) :: map (trim_more trim) cs))).
+    { unfold expect_chunk, trim_console, trim_more. destruct trim; [reflexivity|]. rewrite map_id. reflexivity. }
+    destruct rest as [|ch2 rest'].
+    + change (flatten_chunks [(true, c0 :: cs)]) with (c0 :: cs).
+      change (map (expect_chunk trim) [(true, c0 :: cs)]) with [expect_chunk trim (true, c0 :: cs)].
+      rewrite ex_loop_cons. rewrite He0, Hf0, Hp0.
+      change (nonempty_list (@nil str)) with false. cbv iota. rewrite !app_nil_l.
+      rewrite Hexp.
+      rewrite <- (app_nil_r cs) at 1. rewrite (ex_console trim cs [] _ Hcs). reflexivity.
+    + change (flatten_chunks ((true, c0 :: cs) :: ch2 :: rest')) with ((c0 :: cs) ++ [] :: flatten_chunks (ch2 :: rest')).
+      change (map (expect_chunk trim) ((true, c0 :: cs) :: ch2 :: rest')) with
+        (expect_chunk trim (true, c0 :: cs) :: map (expect_chunk trim) (ch2 :: rest')).
+      rewrite <- app_comm_cons. rewrite ex_loop_cons. rewrite He0, Hf0, Hp0.
+      change (nonempty_list (@nil str)) with false. cbv iota. rewrite !app_nil_l.
+      rewrite (ex_console trim cs _ _ Hcs). rewrite ex_loop_cons.
+      change (is_empty_line []) with true. cbv iota.
+      rewrite (IH Hrest Hadj'). rewrite Hexp. reflexivity.
+  - (* prose *)
+    assert (Hpr := wf_chunk_prose ls Hc).
+    assert (Hexp : expect_chunk trim (false, ls) = (false, join_nl ls)) by reflexivity.
+    destruct rest as [|[b2 ls2] rest'].
+    + simpl flatten_chunks. rewrite <- (app_nil_r ls) at 1. rewrite (ex_prose trim ls [] [] Hpr).
+      simpl app. simpl ex_loop. destruct ls as [|l0 r]; [congruence|]. simpl nonempty_list. cbv iota.
+      rewrite (rstrip_join (l0 :: r) Hne HP Hlast). reflexivity.
+    + simpl in Hadj. destruct b2; [|discriminate].
+      simpl in Hrest. apply andb_true_iff in Hrest. destruct Hrest as [Hc2 Hrest'].
+      destruct (wf_chunk_lines true ls2 Hc2) as [Hne2 Hl2].
+      destruct ls2 as [|c0 cs]; [congruence|].
+      assert (Hp0 : startswith s_prompt c0 = true).
+      { unfold wf_chunk in Hc2. apply andb_true_iff in Hc2. destruct Hc2 as [_ H]. exact H. }
+      assert (He0 : is_empty_line c0 = false) by (apply (Hl2 c0); left; reflexivity).
+      assert (Hf0 : startswith s_fence c0 = false).
+      { destruct c0 as [|x c0']; [discriminate|]. simpl in Hp0. apply andb_true_iff in Hp0. destruct Hp0 as [Hx _].
+        apply ceq_eq in Hx. subst x. reflexivity. }
+      change (flatten_chunks ((false, ls) :: (true, c0 :: cs) :: rest')) with (ls ++ [] :: flatten_chunks ((true, c0 :: cs) :: rest')).
+      rewrite (ex_prose trim ls _ [] Hpr). simpl app at 1.
+      rewrite ex_loop_cons. simpl is_empty_line. cbv iota.
+      (* the console chunk that follows flushes the prose *)
+      assert (Hflat : exists R, flatten_chunks ((true, c0 :: cs) :: rest') = c0 :: cs ++ R /\
+                                (R = [] /\ rest' = [] \/ exists ch3 r3, rest' = ch3 :: r3 /\ R = [] :: flatten_chunks rest')).
+      { destruct rest' as [|ch3 r3].
+        - exists []. split; [simpl; rewrite app_nil_r; reflexivity|left; auto].
+        - exists ([] :: flatten_chunks (ch3 :: r3)). split; [reflexivity|right; eauto]. }
+      destruct Hflat as [R [EF HR]].
+      assert (Hgoal : ex_loop trim false false [] [] (flatten_chunks ((true, c0 :: cs) :: rest')) = map (expect_chunk trim) ((true, c0 :: cs) :: rest')).
+      { apply IH; [|exact Hadj'].
+        change (forallb wf_chunk ((true, c0 :: cs) :: rest')) with (wf_chunk (true, c0 :: cs) && forallb wf_chunk rest').
+        apply andb_true_iff. split; [exact Hc2|exact Hrest']. }
+      rewrite EF in Hgoal |- *.
+      rewrite ex_loop_cons in Hgoal. rewrite He0, Hf0, Hp0 in Hgoal. simpl nonempty_list in Hgoal. cbv iota in Hgoal. simpl app in Hgoal.
+      rewrite ex_loop_cons. rewrite He0, Hf0, Hp0.
+      assert (Hnt : nonempty_list (ls ++ [[]]) = true) by (destruct ls; reflexivity).
+      rewrite Hnt. rewrite (rstrip_join_snoc ls Hne HP Hlast).
+      rewrite app_nil_l. rewrite Hgoal. reflexivity.
+Qed.
+
+Lemma last_app_nonempty : forall (A : Type) (a b : list A) d, b <> [] -> last (a ++ b) d = last b d.
+Proof.
+  intros A a b d Hb. induction a as [|x a IH]; [reflexivity|].
+  simpl. rewrite IH. destruct (a ++ b) eqn:E; [|reflexivity]. apply app_eq_nil in E. destruct E; congruence.
+Qed.
+
+Lemma read_section_examples_ok : forall o c ind trim chunks tail tr n, 1 <= ind ->
+  forallb wf_chunk chunks = true -> no_adjacent_prose chunks = true -> chunks <> [] ->
+  first_not_space (hd [] (flatten_chunks chunks)) = true -> trim = trim_flags_opt o ->
+  tail_ok tail tr n ->
+  read_section o c KExamples (map (indent_line ind) (flatten_chunks chunks) ++ tail) =
+  RS (BExamples (map (expect_chunk trim) chunks)) (List.length (flatten_chunks chunks) + n).
+Proof.
+  intros o c ind trim chunks tail tr n Hi Hw Hadj Hne Hfs Htrim Ht.
+  (* every line of the body is blank or printable text *)
+  assert (Hlines : forall l, In l (flatten_chunks chunks) -> forallb printable l = true /\ (l = [] \/ is_empty_line l = false)).
+  { clear Hadj Hne Hfs. induction chunks as [|[b ls] rest IH]; intros l Hin; [destruct Hin|].
+    simpl in Hw. apply andb_true_iff in Hw. destruct Hw as [Hc Hrest].
+    destruct (wf_chunk_lines b ls Hc) as [_ Hl].
+    destruct rest as [|ch2 rest'].
+    - simpl in Hin. destruct (Hl l Hin) as [A B]. auto.
+    - change (flatten_chunks ((b, ls) :: ch2 :: rest')) with (ls ++ [] :: flatten_chunks (ch2 :: rest')) in Hin.
+      apply in_app_or in Hin. destruct Hin as [Hin|[<-|Hin]].
+      + destruct (Hl l Hin) as [A B]. auto.
+      + split; [reflexivity|left; reflexivity].
+      + apply IH; auto. }
+  assert (Hlastne : last (flatten_chunks chunks) [] <> []).
+  { clear Hadj Hfs Hlines. induction chunks as [|[b ls] rest IH]; [congruence|].
+    simpl in Hw. apply andb_true_iff in Hw. destruct Hw as [Hc Hrest].
+    destruct (wf_chunk_lines b ls Hc) as [Hn Hl].
+    destruct rest as [|ch2 rest'].
+    - simpl. apply nonblank_last; auto.
+    - change (flatten_chunks ((b, ls) :: ch2 :: rest')) with (ls ++ [] :: flatten_chunks (ch2 :: rest')).
+      assert (Hfl : flatten_chunks (ch2 :: rest') <> []).
+      { destruct ch2 as [b2 ls2]. simpl in Hrest. apply andb_true_iff in Hrest. destruct Hrest as [Hc2 _].
+        destruct (wf_chunk_lines b2 ls2 Hc2) as [Hn2 _]. destruct rest'; simpl; destruct ls2; try congruence; discriminate. }
+      rewrite last_app_nonempty by discriminate.
+      replace (last ([] :: flatten_chunks (ch2 :: rest')) []) with (last (flatten_chunks (ch2 :: rest')) [])
+        by (destruct (flatten_chunks (ch2 :: rest')); [congruence|reflexivity]).
+      apply IH; auto. discriminate. }
+  destruct (flatten_chunks chunks) as [|l0 ls] eqn:EF.
+  { destruct chunks as [|[b ls0] rest]; [congruence|]. simpl in Hw. apply andb_true_iff in Hw. destruct Hw as [Hc _].
+    destruct (wf_chunk_lines b ls0 Hc) as [Hn0 _]. destruct rest; simpl in EF; destruct ls0; try congruence; discriminate. }
+  simpl hd in Hfs.
+  assert (Hp0 : all_printable l0 = true) by (apply (Hlines l0); left; reflexivity).
+  assert (Hne0 : nonempty l0 = true).
+  { destruct (Hlines l0 (or_introl eq_refl)) as [_ [E|E]].
+    - (* the first line of the first chunk is not blank *)
+      exfalso. destruct chunks as [|[b ls0] rest]; [congruence|]. simpl in Hw. apply andb_true_iff in Hw. destruct Hw as [Hc _].
+      destruct (wf_chunk_lines b ls0 Hc) as [Hn0 Hl0]. destruct ls0 as [|x r0]; [congruence|].
+      assert (x = l0) by (destruct rest; simpl in EF; inversion EF; reflexivity). subst x.
+      destruct (Hl0 l0 (or_introl eq_refl)) as [_ B]. subst l0. discriminate.
+    - destruct l0; [discriminate|reflexivity]. }
+  assert (Hwd : wf_desc l0 ls = true).
+  { unfold wf_desc. rewrite Hp0, Hfs. simpl.
+    assert (Hc : forallb wf_cont ls = true).
+    { apply forallb_forall. intros l Hin. destruct (Hlines l (or_intror Hin)) as [A [B|B]].
+      - subst l. reflexivity.
+      - unfold wf_cont. unfold all_printable. rewrite A. rewrite B. simpl. apply orb_true_r. }
+    rewrite Hc. simpl. unfold last_nonempty. destruct ls as [|x r]; [reflexivity|].
+    replace (last (l0 :: x :: r) []) with (last (x :: r) []) in Hlastne by reflexivity.
+    destruct (last (x :: r) []); [congruence|reflexivity]. }
+  unfold read_section.
+  rewrite (read_block_ok ind l0 ls tail tr n Hi Hne0 Hwd Ht).
+  unfold parse_examples.
+  assert (HP : forall l, In l (l0 :: ls) -> forallb printable l = true) by (intros l Hin; apply (Hlines l Hin)).
+  assert (Hnn : l0 :: ls <> []) by discriminate.
+  rewrite (split_nl_join _ Hnn HP). rewrite <- EF. rewrite <- Htrim.
+  rewrite (ex_chunks trim chunks Hw Hadj). rewrite EF. reflexivity.
+Qed.
+
 (* ---- the main loop *)
 Lemma gloop_step : forall f o c cur incode pb l rest,
   gloop (S f) o c cur incode pb (l :: rest) =
@@ -1467,20 +1680,21 @@ Lemma any_truthy_hd : forall tl rest, nonempty (hd [] tl) = true -> any_truthy (
 Proof. intros tl rest H. destruct tl as [|l tl']; [discriminate|]. simpl. destruct l; [discriminate|reflexivity]. Qed.
 
 Lemma wf_sec_header : forall o c s, wf_sec o c s = true ->
-  match s with WText _ => True | WItems _ h _ _ | WAdm h _ _ | WRet _ _ _ h _ _ => wf_header h = true end.
+  match s with WText _ => True | WItems _ h _ _ | WAdm h _ _ | WRet _ _ _ h _ _ | WExamples _ h _ _ => wf_header h = true end.
 Proof.
-  intros o c s H. destruct s as [tl|k h t its|h t ls|m n k h t its]; [exact I| | |];
+  intros o c s H. destruct s as [tl|k h t its|h t ls|m n k h t its|trim h t chunks]; [exact I| | | |];
     unfold wf_sec in H; destruct (wf_header h) eqn:E; try reflexivity; simpl in H; discriminate.
 Qed.
 
 Lemma render_sec_head : forall o c ind s, wf_sec o c s = true -> exists l rest, render_sec ind s = l :: rest /\ nsp_head l = true.
 Proof.
-  intros o c ind s H. assert (Hh := wf_sec_header o c s H). destruct s as [tl|k h t its|h t ls|m n k h t its].
+  intros o c ind s H. assert (Hh := wf_sec_header o c s H). destruct s as [tl|k h t its|h t ls|m n k h t its|trim h t chunks].
   - simpl in H. destruct (wf_text_facts tl H) as [Hn [Hhd [_ [Hok HP]]]].
     destruct tl as [|l tl']; [congruence|]. exists l, tl'. split; [reflexivity|].
     simpl in Hhd. simpl in Hok. apply andb_true_iff in Hok. destruct Hok as [Hpl Hok].
     apply andb_true_iff in Hok. destruct Hok as [Hfs _].
     apply nsp_head_of; auto.
+  - eexists. eexists. split; [reflexivity|]. apply header_line_head. exact Hh.
   - eexists. eexists. split; [reflexivity|]. apply header_line_head. exact Hh.
   - eexists. eexists. split; [reflexivity|]. apply header_line_head. exact Hh.
   - eexists. eexists. split; [reflexivity|]. apply header_line_head. exact Hh.
@@ -1564,7 +1778,7 @@ Proof.
     specialize (IH Hwf_r).
     destruct (tail_of_ok o c ind r Hr) as [tr [n [Htail Hn]]].
     rewrite render_google_tail in Hf |- *.
-    destruct s as [tl0|k h t its|h t ls|m nm k h t its].
+    destruct s as [tl0|k h t its|h t ls|m nm k h t its|trim h t chunks].
     + (* free text *)
       split; [|intros tl _ Hnt; simpl in Hnt; discriminate].
       simpl in Hs. destruct (wf_text_facts tl0 Hs) as [Hn0 [Hhd [Hlast [Hok HP]]]].
@@ -1717,6 +1931,60 @@ Proof.
         rewrite <- app_comm_cons.
         rewrite (gloop_section f' o c (tl ++ [[]]) _ _ h t k _ _ Hfence Hre Hind Ek Hrs).
         rewrite Hrest. rewrite Hexp. unfold flush. rewrite (any_truthy_hd tl [[]] Hhd). rewrite Et2. reflexivity.
+    + (* an Examples section *)
+      simpl in Hs.
+      apply andb_true_iff in Hs; destruct Hs as [Hs Hfs].
+      apply andb_true_iff in Hs; destruct Hs as [Hs Hadjp].
+      apply andb_true_iff in Hs; destruct Hs as [Hs Hchunks].
+      apply andb_true_iff in Hs; destruct Hs as [Hs Hne].
+      apply andb_true_iff in Hs; destruct Hs as [Hs Htrim].
+      apply andb_true_iff in Hs; destruct Hs as [Hs Hkind].
+      apply andb_true_iff in Hs; destruct Hs as [Hh Ht].
+      destruct (g_section_kind (lower h)) as [k'|] eqn:Ek; [|discriminate].
+      destruct k'; try discriminate.
+      apply Bool.eqb_prop in Htrim.
+      assert (Hcne : chunks <> []) by (destruct chunks; [discriminate|discriminate]).
+      destruct (header_line_head h t Hh) as [_ Hfence].
+      assert (Hre := re_admonition_header h t Hh Ht).
+      assert (Hrs := read_section_examples_ok o c ind trim chunks (tail_of ind r) tr n Hi Hchunks Hadjp Hcne Hfs Htrim Htail).
+      set (X := map (indent_line ind) (flatten_chunks chunks)) in *.
+      change (render_sec ind (WExamples trim h t chunks)) with (header_line h t :: X) in *.
+      assert (HX : List.length (flatten_chunks chunks) = List.length X) by (unfold X; rewrite map_length; reflexivity).
+      rewrite HX in Hrs.
+      destruct (after_block ind X r n Hn) as [Hskip Hpb].
+      (* the first body line is a non-blank line of the first chunk, indented *)
+      assert (Hfl : exists l0 ls, flatten_chunks chunks = l0 :: ls /\ nsp_head l0 = true).
+      { destruct chunks as [|[b ls0] rest]; [congruence|]. simpl in Hchunks. apply andb_true_iff in Hchunks. destruct Hchunks as [Hc _].
+        destruct (wf_chunk_lines b ls0 Hc) as [Hn0 Hl0]. destruct ls0 as [|x r0]; [congruence|].
+        exists x. destruct (Hl0 x (or_introl eq_refl)) as [Px Ex].
+        assert (E : exists ls, flatten_chunks ((b, x :: r0) :: rest) = x :: ls) by (destruct rest; simpl; eauto).
+        destruct E as [ls E]. exists ls. split; [exact E|]. rewrite E in Hfs. simpl in Hfs.
+        apply nsp_head_of; auto. destruct x; [discriminate|reflexivity]. }
+      destruct Hfl as [l0 [ls0 [Efl Hl0]]].
+      assert (Hind : indented_opt (nth_error (X ++ tail_of ind r) 0) = true).
+      { unfold X. rewrite Efl. simpl map. rewrite <- app_comm_cons. destruct l0 as [|x l0']; [discriminate|].
+        change (indent_line ind (x :: l0')) with (spaces ind ++ x :: l0'). apply indented_first; auto. }
+      destruct f as [|f']; [lia|].
+      assert (Hf' : List.length (render_google ind r) < f').
+      { simpl in Hf. rewrite app_length in Hf. destruct r; simpl in *; lia. }
+      assert (Hexp : expect_google c (WExamples trim h t chunks :: r) =
+                     GExamples t (map (expect_chunk trim) chunks) :: expect_google c r) by reflexivity.
+      assert (Htitled : titled t KExamples (BExamples (map (expect_chunk trim) chunks)) = [GExamples t (map (expect_chunk trim) chunks)]).
+      { destruct chunks; [congruence|reflexivity]. }
+      assert (Hrest : gloop f' o c [] false (prev_blank_after (X ++ tail_of ind r) (List.length X + n))
+                        (skipn (List.length X + n) (X ++ tail_of ind r)) = POk (expect_google c r)).
+      { rewrite Hskip. destruct r as [|s2 r'].
+        - destruct f'; [simpl in Hf'; lia|]. reflexivity.
+        - rewrite Hpb by discriminate. destruct (IH f' Hf') as [IHa _]. exact IHa. }
+      split.
+      * rewrite <- app_comm_cons.
+        rewrite (gloop_section f' o c [] _ _ h t KExamples _ _ Hfence Hre Hind Ek Hrs).
+        rewrite Hrest. rewrite Hexp. rewrite Htitled. reflexivity.
+      * intros tl Htl _. simpl in Htl. destruct (wf_text_facts tl Htl) as [Hn0 [Hhd [Hlast [_ HP]]]].
+        destruct (text_of_join tl Hn0 HP Hlast) as [_ Et2].
+        rewrite <- app_comm_cons.
+        rewrite (gloop_section f' o c (tl ++ [[]]) _ _ h t KExamples _ _ Hfence Hre Hind Ek Hrs).
+        rewrite Hrest. rewrite Hexp. rewrite Htitled. unfold flush. rewrite (any_truthy_hd tl [[]] Hhd). rewrite Et2. reflexivity.
 Qed.
 
 Theorem google_roundtrip : forall o c ind secs, 1 <= ind -> wf_secs o c secs = true ->
@@ -1833,18 +2101,35 @@ Qed.
 Definition modes_opts : gopts := mkOpts false false true true true.
 Definition modes_ctx : pctx := mkCtx (Some []) (Some []) (RPlain (RPTuple (s_of "tuple[int, str]") [s_of "int"; s_of "str"])).
 Definition modes_doc : list wsec :=
-  [WText [s_of "Summary."];
+  [WText [s_of "Summary."; []; s_of "```python"; s_of "    Args:"; []; s_of "        x: y"; s_of "```"; s_of "After the code."];
    WRet false false KReturns (s_of "Returns") None [mkW None None (s_of "Both values") [s_of "on two lines."; []; s_of "    deeper"]];
+   WExamples true (s_of "Examples") None
+     [(false, [s_of "Some prose."; s_of "More prose."]);
+      (true, [s_of ">>> f(1)  # doctest: +SKIP"; s_of "1"; s_of "<BLANKLINE>"; s_of "2"]);
+      (true, [s_of ">>> g()"]);
+      (false, [s_of "Closing words."])];
    WRet false false KYields (s_of "Yields") (Some (s_of "the title")) [mkW None (Some (s_of "list of int")) (s_of "Numbers.") []]].
 Example modes_wf : wf_secs modes_opts modes_ctx modes_doc = true.
 Proof. vm_compute. reflexivity. Qed.
 Example modes_parsed :
   parse_google modes_opts modes_ctx (render_google 4 modes_doc) =
-  POk [GText (s_of "Summary.");
+  POk [GText (s_of "Summary.
+
+```python
+    Args:
+
+        x: y
+```
+After the code.");
        GItems KReturns None [mkItem (Some []) (Some (s_of "tuple[int, str]")) (s_of "Both values
 on two lines.
 
     deeper") None];
+       GExamples None [(false, s_of "Some prose.
+More prose."); (true, s_of ">>> f(1)
+1
+
+2"); (true, s_of ">>> g()"); (false, s_of "Closing words.")];
        GItems KYields (Some (s_of "the title")) [mkItem (Some []) (Some (s_of "list of int")) (s_of "Numbers.") None]].
 Proof. vm_compute. reflexivity. Qed.
 
